@@ -77,16 +77,30 @@ bool same(const ContextValue &v, const MV &m) {
 }
 
 using Model = std::map<std::string, MV>;
+// Two key sets. Set 0: plain keys, one a proper prefix of another, the empty key. Set 1: keys of EQUAL length that agree up to
+// an embedded NUL byte and differ behind it ("k\0x" / "k\0y"), their common prefixes "k\0" and "k", and a longer one: keys are
+// string_views, i.e. byte strings with a length, and a comparison that stops at a NUL (strcmp / strncmp) confuses them.
+int g_keyset = 0;
+#define VF_K(lit) std::string(lit, sizeof(lit) - 1)
 const std::vector<std::string> &query_keys() {
-  static const std::vector<std::string> k = {"a", "b", "ab", "", "abc", "A"};
-  return k;
+  static const std::vector<std::string> k[2] = {{"a", "b", "ab", "", "abc", "A"},
+                                                {VF_K("k\0x"), VF_K("k\0y"), VF_K("k\0"), "k", VF_K("k\0xz"), ""}};
+  return k[g_keyset];
+}
+const std::vector<std::string> &set_keys_of() {
+  static const std::vector<std::string> k[2] = {{"a", "b", ""}, {VF_K("k\0x"), VF_K("k\0y"), "k"}};
+  return k[g_keyset];
+}
+const std::vector<std::string> &map_keys_of() {
+  static const std::vector<std::string> k[2] = {{"a", "b", "ab"}, {VF_K("k\0x"), VF_K("k\0y"), VF_K("k\0")}};
+  return k[g_keyset];
 }
 
 // the query keys live in exact-size heap blocks without NUL (never modified, shared by all executions)
 const vfq::HeapStr &query_block(size_t i) {
-  static std::vector<std::unique_ptr<vfq::HeapStr>> blocks;
-  if (blocks.empty()) for (auto &k : query_keys()) blocks.emplace_back(new vfq::HeapStr(k));
-  return *blocks[i];
+  static std::vector<std::unique_ptr<vfq::HeapStr>> blocks[2];
+  if (blocks[g_keyset].empty()) for (auto &k : query_keys()) blocks[g_keyset].emplace_back(new vfq::HeapStr(k));
+  return *blocks[g_keyset][i];
 }
 
 // ==================================================================================================
@@ -142,8 +156,9 @@ void requery(vf::Ctx &c, std::vector<Member> &fam, const std::string &hist) {
 
 void run_family(vf::Ctx &c) {
   const int depth = atoi(c.opt().get("family-depth", c.thorough() ? "4" : "3").c_str());
-  static const std::vector<std::string> set_keys = {"a", "b", ""};
-  static const std::vector<std::string> map_keys = {"a", "b", "ab"};
+  g_keyset = c.pick("keyset", 2);
+  const std::vector<std::string> &set_keys = set_keys_of();
+  const std::vector<std::string> &map_keys = map_keys_of();
   std::vector<Member> fam;
   fam.push_back({std::unique_ptr<Context>(new Context()), {}});
   std::string hist;
@@ -181,10 +196,10 @@ void run_family(vf::Ctx &c) {
       if (how == 0) { m.ctx.reset(new Context()); hist += " new()"; }
       else if (how == 1) {
         ContextValue v; MV mv; fresh_value(0, &v, &mv);
-        vfq::HeapStr hk("a");
+        vfq::HeapStr hk(set_keys[0]);
         m.ctx.reset(new Context(hk.view(), v));
         hk.scribble();
-        m.model["a"] = mv;
+        m.model[set_keys[0]] = mv;
         hist += " new(a)";
       } else {
         std::map<std::string, ContextValue> vals;
@@ -208,7 +223,7 @@ void run_family(vf::Ctx &c) {
         hk.scribble();  // the context owns its keys
         m.model = fam[i].model;
         m.model[k] = mv;
-        hist += vf::sfmt(" %zu=ctx%d.SetValue('%s',%s)", fam.size(), i, k.c_str(), show(mv).c_str());
+        hist += vf::sfmt(" %zu=ctx%d.SetValue('%s',%s)", fam.size(), i, vfq::printable(k).c_str(), show(mv).c_str());
         fam.push_back(std::move(m));
       } else if (op < 12) {  // SetValues(map)
         int subset = op - 4;
